@@ -75,6 +75,11 @@ func (f *Future[T]) EnqueueMessage(message T) {
 	f.close(message)
 }
 
+// Closed 返回 Future 是否已经完成（收到回复、超时或被关闭）。
+func (f *Future[T]) Closed() bool {
+	return f.closed.Load()
+}
+
 func (f *Future[T]) Close(err error) {
 	f.close(err)
 }
